@@ -2,6 +2,8 @@ import Proofs.DepGraph
 import Proofs.DepGraphMerge
 import Proofs.DepGraphTopo
 import Proofs.DepGraphInvert
+import Proofs.DepGraphQueries
+import Proofs.DepGraphGraft
 import Proofs.DepGraphTopoComplete
 /-!
 # C16 — the dependency graph mirrors a plain node/edge set under any edit history
@@ -16,7 +18,7 @@ spec (`addNode_refines`, `addDep_refines`, `removeDep_refines`, `removeNode_refi
 `merge`, `copy`, `+` and `invert` refine the spec too (`multi_history_refines`: histories over any number of graph variables),
 and the topological sort is proved sound and total on every such graph (`topo_history`: returns exactly on acyclic
 graphs, every node once after all its dependencies, `cyclic` otherwise).
-`graft`, `flatten`, `transitive_reduction/closure` are in the executable model and tied to the code by the
+`graft` refines its set-level counterpart (`graft_refines_spec`); `flatten` (a loop of grafts), `transitive_reduction/closure` are in the executable model and tied to the code by the
 correspondence; their theorems are not proved yet (`multi_history_refines` is therefore the `…_partial` form of the
 property's first sentence: histories without grafts).  `c16_pinned_refuted` keeps the pinned `graft` (A19) refuted.
 -/
@@ -292,41 +294,66 @@ theorem topo_history (ops : List MOp) (i : Nat) :
     = .ok [1, 3, 4])
 #guard decide ((run G.empty [.addDep 1 2, .addDep 2 3, .addDep 3 1]).topologicalSort = .error .cyclic)
 
-/-! ### Queries read through the abstraction -/
+/-! ### Queries and `graft` read through the abstraction -/
 
-theorem mapM_nodeAt (g : G) (s : List Nat) (hs : ∀ b ∈ s, b < g.size) :
-    s.mapM (nodeAt g) = .ok (s.map fun b => g.nodes.seq.getD b 0) := by
-  induction s with
-  | nil => rfl
-  | cons b t ih =>
-    have hb : b < g.nodes.seq.length := hs b (by simp)
-    have ht := ih (fun c hc => hs c (by simp [hc]))
-    simp [List.mapM_cons, ht, nodeAt, hb, bind, Except.bind, pure, Except.pure]
+/-- `dependees(x)`: exactly the nodes that depend on `x` -/
+theorem dependees_reads {g : G} {s : Spec} (h : Refines g s) (x : Nat) (hx : s.N x) :
+    ∃ l, g.dependees x = .ok l ∧ ∀ y, y ∈ l ↔ s.E y x := by
+  obtain ⟨l, hl, hm⟩ := (dependees_spec h.1 x).2 ((h.2.1 x).2 hx)
+  exact ⟨l, hl, fun y => (hm y).trans (h.2.2 y x)⟩
+
+/-- `initial()` / `terminal()`: exactly the nodes nobody depends on / that depend on nothing -/
+theorem initial_terminal_spec {g : G} {s : Spec} (h : Refines g s) :
+    (∃ l, g.initial = .ok l ∧ ∀ y, y ∈ l ↔ s.N y ∧ ¬ ∃ u, s.E u y) ∧
+    (∃ l, g.terminal = .ok l ∧ ∀ y, y ∈ l ↔ s.N y ∧ ¬ ∃ w, s.E y w) := by
+  obtain ⟨l1, h1, m1⟩ := initial_spec h.1
+  obtain ⟨l2, h2, m2⟩ := terminal_spec h.1
+  refine ⟨⟨l1, h1, fun y => ?_⟩, ⟨l2, h2, fun y => ?_⟩⟩
+  · rw [m1 y, h.2.1 y]
+    constructor
+    · rintro ⟨a, b⟩; exact ⟨a, fun ⟨u, hu⟩ => b ⟨u, (h.2.2 u y).2 hu⟩⟩
+    · rintro ⟨a, b⟩; exact ⟨a, fun ⟨u, hu⟩ => b ⟨u, (h.2.2 u y).1 hu⟩⟩
+  · rw [m2 y, h.2.1 y]
+    constructor
+    · rintro ⟨a, b⟩; exact ⟨a, fun ⟨w, hw⟩ => b ⟨w, (h.2.2 y w).2 hw⟩⟩
+    · rintro ⟨a, b⟩; exact ⟨a, fun ⟨w, hw⟩ => b ⟨w, (h.2.2 y w).1 hw⟩⟩
+
+/-- the mathematical graph after grafting the graph `t` in place of the node `x` of `s` -/
+def Spec.graft (s t : Spec) (x : Nat) : Spec :=
+  let term := fun u => t.N u ∧ ¬ ∃ w, t.E u w
+  let init := fun w => t.N w ∧ ¬ ∃ u, t.E u w
+  let added := fun u w => (term u ∧ s.E x w) ∨ (s.E u x ∧ init w) ∨ ((∀ z, ¬ t.N z) ∧ s.E u x ∧ s.E x w)
+  ⟨fun z => (s.N z ∧ z ≠ x) ∨ t.N z ∨ ∃ w, added z w ∨ added w z,
+   fun u w => (s.E u w ∧ u ≠ x ∧ w ≠ x) ∨ t.E u w ∨ added u w⟩
+
+/-- **`graft` refines the set-level graft**: the node is replaced by the nested graph, its dependees depend on the
+initial nodes of the nested graph, the terminal nodes of the nested graph depend on its dependencies, and an empty
+nested graph lets the constraints through -/
+theorem graft_refines_spec {g sub : G} {s t : Spec} (hg : Refines g s) (hs : Refines sub t) {x : Nat} (hx : s.N x) :
+    ∃ g', g.graft x sub = .ok g' ∧ Refines g' (s.graft t x) := by
+  obtain ⟨g', hgr, hi, hn, he⟩ := graft_refines hg.1 hs.1 ((hg.2.1 x).2 hx)
+  have eE : g.Edge = s.E := by funext u w; exact propext (hg.2.2 u w)
+  have eN : g.Node = s.N := by funext z; exact propext (hg.2.1 z)
+  have tE : sub.Edge = t.E := by funext u w; exact propext (hs.2.2 u w)
+  have tN : sub.Node = t.N := by funext z; exact propext (hs.2.1 z)
+  refine ⟨g', hgr, hi, ?_, ?_⟩
+  · intro z
+    rw [hn z]
+    unfold Added G.Terminal G.Initial Spec.graft
+    simp only [eE, eN, tE, tN]
+  · intro u w
+    rw [he u w]
+    unfold Added G.Terminal G.Initial Spec.graft
+    simp only [eE, eN, tE, tN]
+
+/-! ### `dependencies` -/
 
 /-- `dependencies(x)` returns exactly the nodes `y` with an edge `x → y`, and raises `ValueError` exactly
 when `x` is not a node -/
 theorem dependencies_spec {g : G} (h : GInv g) (x : Nat) :
     (¬ g.Node x → g.dependencies x = .error .valueError) ∧
-    (g.Node x → ∃ l, g.dependencies x = .ok l ∧ ∀ y, y ∈ l ↔ g.Edge x y) := by
-  constructor
-  · intro hx; simp [G.dependencies, h.indexOf_absent hx, bind, Except.bind]
-  · intro hx
-    obtain ⟨i, hi, hix⟩ := h.indexOf_spec hx
-    obtain ⟨s, hs, hgs⟩ := h.edgesAt_ok (lt_of_getElem?_some hix)
-    have hm := mapM_nodeAt g s (h.erange i s hgs)
-    refine ⟨s.map fun b => g.nodes.seq[b]?.getD 0, by simp [G.dependencies, hi, hs, hm, bind, Except.bind], ?_⟩
-    intro y
-    simp only [List.mem_map]
-    constructor
-    · rintro ⟨b, hb, rfl⟩
-      have hlt : b < g.nodes.seq.length := h.erange i s hgs b hb
-      exact ⟨i, b, s, hix, by simp [hlt], hgs, hb⟩
-    · rintro ⟨a, b, s', ha, hb, hs', hbs⟩
-      have := h.pos_unique ha hix; subst this
-      rw [hgs] at hs'; injection hs' with hs'; subst hs'
-      refine ⟨b, hbs, ?_⟩
-      have hlt := lt_of_getElem?_some hb
-      simp [hb]
+    (g.Node x → ∃ l, g.dependencies x = .ok l ∧ ∀ y, y ∈ l ↔ g.Edge x y) :=
+  dependencies_ok h x
 
 /-! ### The pinned `graft` (defect A19, repaired by commit 72e83e1) stays refuted -/
 
